@@ -482,6 +482,22 @@ class SocketAdapter(Path):
             self.log({"ev": "inner_close", "i": 1})
 
 
+class SocketAdapterEofFails(SocketAdapter):
+    """... when the half-close that precedes the close fails (the peer has reset the connection and the loop has not noticed yet:
+    write_eof() answers ENOTCONN): the transport is closed all the same."""
+
+    name = "AsyncioTransportStreamSocketAdapter.aclose (write_eof fails with ENOTCONN)"
+
+    async def setup(self) -> None:
+        await super().setup()
+        import errno
+
+        def write_eof() -> None:
+            raise OSError(errno.ENOTCONN, "Transport endpoint is not connected")
+
+        harness.asyncio_transport_of(self.adapter).write_eof = write_eof  # type: ignore[method-assign]
+
+
 class DatagramSocketAdapter(Path):
     name = "AsyncioTransportDatagramSocketAdapter.aclose"
 
@@ -777,6 +793,7 @@ PATHS: list[type[Path]] = [
     DatagramEndpointBehindSender,
     UDPServerTwoListeners,
     DatagramListenerAdapter,
+    SocketAdapterEofFails,
 ]
 
 
